@@ -2,8 +2,11 @@
     ([shexer/io/graph/yielder/big_ttl_triples_yielder.py], input format
     [turtle_iter]) together with the token tuning of
     [shexer/utils/triple_yielders.py] and the literal typing of
-    [shexer/utils/uri.py], as the code is NOW (after the two [fix:] commits
-    b878913 and db95fdd), faults included.
+    [shexer/utils/uri.py], as the code is NOW, faults included.  Six repairs of
+    the reader are recognised by [tools/gen_consts.py] as boolean flags
+    ([ttl_comment_single_pass], [ttl_end_of_input_check], [ttl_base_applied_once],
+    [ttl_scheme_test_nodes], [ttl_scheme_test_datatypes], [ttl_replace_once]) and
+    the table [ttl_INI_BASE_URIS]; the model follows whichever shape the source has.
 
     Conventions: a Python [str] is its UTF-8 byte list ([Lib.PyStr]); every
     place where Python raises is an explicit [Err] with the exception class;
@@ -120,8 +123,33 @@ Fixpoint comment_cut (ms qs : list Z) (line : str) : res str :=
     end
   end.
 
+(** the repaired [_remove_comments_if_needed]: one left-to-right pass; [prev] is
+    [str_line[i - 1]]; the result is the index at which the line is cut *)
+Definition comment_hash : ascii := match ttl_inline_comment with [_; h] => h | _ => ascii_of_nat 35 end.
+
+Fixpoint comment_scan (s : str) (i : Z) (prev : option ascii) (in_string escaped : bool) : option Z :=
+  match s with
+  | [] => None
+  | c :: s' =>
+    if in_string then
+      if escaped then comment_scan s' (i + 1) (Some c) true false
+      else if mem_chr c ttl_quote_not_after then comment_scan s' (i + 1) (Some c) true true
+      else if chr_eqb c ttl_quote then comment_scan s' (i + 1) (Some c) false false
+      else comment_scan s' (i + 1) (Some c) true false
+    else if chr_eqb c ttl_quote then comment_scan s' (i + 1) (Some c) true escaped
+    else if chr_eqb c comment_hash && (0 <? i) &&
+            match prev with Some p => chr_eqb p ttl_blank | None => false end
+         then Some (i - 1)
+         else comment_scan s' (i + 1) (Some c) false escaped
+  end.
+
 Definition remove_comments (line : str) : res str :=
-  if negb (contains s_quote line) then Ok (slice_to line (find ttl_inline_comment line))
+  if ttl_comment_single_pass then
+    match comment_scan line 0 None false false with
+    | Some k => Ok (slice_to line k)
+    | None => Ok line
+    end
+  else if negb (contains s_quote line) then Ok (slice_to line (find ttl_inline_comment line))
   else comment_cut (find_all ttl_inline_comment line 0)
                    (quote_scan line 0 false (Z.to_nat ttl_quotes_looked_for)) line.
 
@@ -185,6 +213,24 @@ Definition find_literal_ending (s : str) (start : Z) : res Z :=
        | None => Err TEValue
        end.
 
+(** [starts_with_scheme] of utils/uri.py: the regex [A-Za-z][A-Za-z0-9+.-]*: matched at the start *)
+Definition scheme_alpha (c : ascii) : bool :=
+  let n := nat_of_ascii c in (Nat.leb 65 n && Nat.leb n 90) || (Nat.leb 97 n && Nat.leb n 122).
+Definition scheme_char (c : ascii) : bool :=
+  let n := nat_of_ascii c in
+  scheme_alpha c || (Nat.leb 48 n && Nat.leb n 57) || Nat.eqb n 43 || Nat.eqb n 46 || Nat.eqb n 45.
+Fixpoint scheme_rest (s : str) : bool :=
+  match s with
+  | [] => false
+  | c :: s' => if Nat.eqb (nat_of_ascii c) 58 then true else if scheme_char c then scheme_rest s' else false
+  end.
+Definition starts_with_scheme (s : str) : bool :=
+  match s with c :: s' => scheme_alpha c && scheme_rest s' | [] => false end.
+
+(** the absolute-IRI test of [_parse_cornered_element] / [decide_literal_type], old or repaired *)
+Definition is_absolute (repaired : bool) (start s : str) : bool :=
+  if repaired then starts_with_scheme s else prefixb start s.
+
 (** [_parse_cornered_element] *)
 Definition parse_cornered (b : option str) (c : str) : res str :=
   match b with
@@ -194,7 +240,8 @@ Definition parse_cornered (b : option str) (c : str) : res str :=
     | None => Err TEIndex
     | Some c1 =>
       if mem_str [c1] ttl_INI_BASE_URIS then Ok (s_lt ++ base ++ slice c 2 (-1) ++ s_gt)
-      else if negb (prefixb ttl_abs_iri_start (slice_from c 1)) then Ok (s_lt ++ base ++ slice c 1 (-1) ++ s_gt)
+      else if negb (is_absolute ttl_scheme_test_nodes ttl_abs_iri_start (slice_from c 1))
+           then Ok (s_lt ++ base ++ slice c 1 (-1) ++ s_gt)
       else Ok c
     end
   end.
@@ -209,8 +256,9 @@ Definition next_line_token (b : option str) (line : str) (start : Z) : res (opti
          if mem_str [c] ttl_CLOSURES then Ok (Some ([c], i + 1))
          else if chr_eqb c ttl_iri_open then
            let e := find_from ttl_iri_close line i in
-           tok <- parse_cornered b (slice line i (e + 1)) ;;
-           Ok (Some (tok, e + 1))
+           if ttl_base_applied_once then Ok (Some (slice line i (e + 1), e + 1))
+           else tok <- parse_cornered b (slice line i (e + 1)) ;;
+                Ok (Some (tok, e + 1))
          else if chr_eqb c ttl_lit_open then
            e <- find_literal_ending line i ;;
            Ok (Some (slice line i (e + 1), e + 1))
@@ -222,13 +270,24 @@ Definition next_line_token (b : option str) (line : str) (start : Z) : res (opti
 (** ** [_parse_elem] *)
 
 (** [unprefixize_uri_mandatory]: first prefix (dict order) such that the
-    element starts with [prefix + ":"]; [str.replace] replaces EVERY occurrence *)
+    element starts with [prefix + ":"]; [str.replace] replaces EVERY occurrence
+    (old) or the first one (repaired) *)
+(** [s.replace(a, b, 1)] *)
+Definition replace_first (a b s : str) : str :=
+  match find_nat a s with
+  | Some k => firstn k s ++ b ++ skipn (k + List.length a) s
+  | None => s
+  end.
+
+Definition replace_pfx (a b s : str) : str :=
+  if ttl_replace_once then replace_first a b s else replace_all a b s.
+
 Fixpoint unprefixize (raw : str) (d : list (str * str)) : res str :=
   match d with
   | [] => Err TEValue
   | (p, ns) :: d' =>
     if prefixb (p ++ ttl_prefix_sep) raw
-    then Ok (s_lt ++ replace_all (p ++ ttl_prefix_sep) ns raw ++ s_gt)
+    then Ok (s_lt ++ replace_pfx (p ++ ttl_prefix_sep) ns raw ++ s_gt)
     else unprefixize raw d'
   end.
 
@@ -350,7 +409,8 @@ Definition decide_literal_type (a : str) (b : option str) : res str :=
          if existsb (fun ns => contains ns a) ttl_dt_namespaces then Ok cand
          else if suffixb ttl_dt_iri_close (strip a) then
            match b with
-           | Some bs => if negb (prefixb ttl_dt_abs_start cand) then Ok (bs ++ cand) else Ok cand
+           | Some bs => if negb (is_absolute ttl_scheme_test_datatypes ttl_dt_abs_start cand)
+                        then Ok (bs ++ cand) else Ok cand
            | None => Ok cand
            end
          else Err TERuntime
@@ -504,4 +564,13 @@ Definition doc_lines (doc : str) : list str :=
   filter (fun l => match strip l with [] => false | _ => true end) (split s_newline doc).
 
 (** [BigTtlTriplesYielder(raw_graph=doc).yield_triples()], consumed to the end *)
-Definition read_ttl (doc : str) : list triple * res st := process_lines (doc_lines doc) st0.
+(** the repaired end-of-input check: after the last line the reader must be waiting for a subject *)
+Definition end_check (r : list triple * res st) : list triple * res st :=
+  match r with
+  | (ts, Ok s) =>
+    if ttl_end_of_input_check && negb (match state s with WS => true | _ => false end)
+    then (ts, Err TEValue) else r
+  | _ => r
+  end.
+
+Definition read_ttl (doc : str) : list triple * res st := end_check (process_lines (doc_lines doc) st0).
